@@ -1,23 +1,24 @@
-"""Check C10 (only the leader decides; other nodes refuse or forward) - in-process part.
+"""Check C10 (only the leader decides; other nodes refuse or forward): the refuse / do-not-expire half in-process
+(this module), the forwarding half on real server processes (checks/fwdpart.py, called from run()).
 
   (1) TLC exhaustive check of LockEngine with Roles = {leader, follower}: NonLeaderDecidesNothing and
       NoEarlyFollowerExpiry (action properties) over every interleaving of requests, role changes, ticks
   (2) seeded role-change histories replayed on the real LockDB (engine S, all four non-leader states),
       the clock driven up to 345 s past the deadlines
   (3) every trace validated by TLC against MonLock clauses of C10
-  The forwarding half of the property (a follower relays the leader's reply) is covered by the process-cluster
-  engine where registered; this module decides the refuse / do-not-expire half.
+  (4) forwarding half: checks/fwdpart.py - spec/Forward.tla (TLC, exhaustive), behaviours replayed on a real
+      leader + followers + CONFIG-state member (engine P), traces validated against spec/mon/MonForward.tla.
 """
 import json, os, shutil, time
 import vbuild, vtlc, engine, gen_role, gen_rt, gen_conc, checklib
 from vbuild import VERIF, InfraError
-from checks import lockfam
+from checks import lockfam, fwdpart
 
 PROPS = ["C10"]
-MANIFEST = {"C10": dict(level="model_checking", design="5/C10", engine="S",
-    technique="TLC on LockEngine with role changes (NonLeaderDecidesNothing, NoEarlyFollowerExpiry) + trace validation of real-code role-change histories against the TLA+ monitor MonLock (C10 clauses)",
+MANIFEST = {"C10": dict(level="model_checking", design="5/C10", engine="S+P",
+    technique="TLC on LockEngine with role changes (NonLeaderDecidesNothing, NoEarlyFollowerExpiry) + trace validation of real-code role-change histories (sequential, and role changes racing requests on the gated engine C) against the TLA+ monitor MonLock (C10 clauses); forwarding: TLC on Forward.tla (transparency layer) + TLC-generated, seeded and directed request sequences through real leader / follower / CONFIG-member processes (binary and text, upstream cuts, leader gone / frozen / killed, promotion between two requests of a connection), every trace validated by TLC against MonForward (one reply per request, relayed reply = the leader's reply, no success of the node's own, one sequential engine explains all routes, follower holds = leader's logged holds)",
     text="The model is exhausted for two roles and two role changes; on the real code every request sent while the node is FOLLOWER/SYNC/CONFIG/VOTE must be answered STATE_ERROR (or UNLOCK_ERROR for a key without state, or TIMEOUT by the concurrent-check fast path), the holds seen in the snapshot must be exactly those the events explain, and no persisted hold may be expired before deadline+300 s.",
-    note="In-process: the role is switched on a real leader instance (db.status under the shard mutexes, as SLock.updateState does); the forwarding path through a follower's port (transparency.go) is not exercised here. Trusted: TLC, engine S harness, MonLock.")}
+    note="Refuse half in-process: the role is switched on a real leader instance (db.status under the shard mutexes, as SLock.updateState does). Forwarding half on processes: followers joined with --slaveof through a recording proxy (the leader's real replies are seen on the wire); leader -> follower demotion is not provokable (SLAVEOF host port dead-locks in updateState) and VOTE needs an election: both only in the model and in engine S. Trusted: TLC, engine S / C harness, the proxy / client driver, MonLock, MonForward.")}
 
 MC = lockfam.MC_CFG
 
@@ -107,14 +108,17 @@ def run(prop, tier, seed):
                     nonleader_reqs += 1
                 elif status != 1 and '"e":"pass"' in ln:
                     npass += 1
-        out.coverage = {"states": st["distinct"], "transitions": st["generated"], "traces_validated_against_impl": len(scs),
+        fwd = fwdpart.run_part(out, tier, seed, os.path.join(wd, "fwd"))
+        out.coverage = {"states": st["distinct"] + fwd["model"]["states"], "transitions": st["generated"] + fwd["model"]["transitions"],
+                        "traces_validated_against_impl": len(scs) + fwd["traces_validated_against_impl"], "forwarding": fwd,
                         "samples": [{"name": scs[0]["name"], "steps": scs[0]["steps"][:14]}], "exhaustive": True,
                         "model": {"module": "spec/LockEngine.tla", "roles": ["leader", "follower"], "max_role_changes": 2, "wall_s": round(r["wall"], 1)},
                         "requests_sent_to_non_leader": nonleader_reqs, "gated_role_race_histories": len(conc),
                         "requests_passing_their_entry_point_on_a_non_leader": npass, "monitor": mst, "selftest": stest,
                         "evaluations": len(scs), "distinct_nontrivial": len({json.dumps(s["steps"], sort_keys=True) for s in scs}),
                         "rule": "one evaluation = one role-change history replayed on the real code and validated by the TLA+ monitor"}
-        out.assumptions = ["role switched in-process on a leader instance; forwarding through a follower port not exercised here",
+        out.assumptions = ["refuse half: role switched in-process on a leader instance",
+                           "forwarding half: leader unreachability is produced by a proxy on the follower -> leader address (the replication link stays up) and once by kill -9 of the leader; follower -> leader role change by SLAVEOF NO ONE; states VOTE and leader -> follower are covered by the model and engine S only",
                            "millisecond holds are exercised on the real clock (engine RT) for a few seconds only, far short of the 300 s window"]
         return out
     finally:
